@@ -62,11 +62,13 @@ class MolecularContainer:
         """Makes sure that all atoms are present in all conformations."""
         # one reference atom per atom label AND residue type, so that an
         # alt-loc/model point mutant cannot shadow the atoms of the other type
-        ref_atoms = {
-            (atom.residue_label, atom.res_name): atom
-            for name in reversed(self.conformation_names)
-            for atom in self.conformations[name].atoms
-        }
+        # The atoms of earlier conformations come first (and win for a shared
+        # key): a conformation that lacks a residue altogether is completed
+        # with the residue type of the earliest conformation that has it.
+        ref_atoms: dict = {}
+        for name in self.conformation_names:
+            for atom in self.conformations[name].atoms:
+                ref_atoms.setdefault((atom.residue_label, atom.res_name), atom)
         for conf in self.conformations.values():
             conf.top_up_from_atoms(ref_atoms.values())
 
